@@ -157,9 +157,9 @@ Proof.
   - intros [oi k]. mr.
 Qed.
 
-Lemma print_dirs_T l : Forall okP l -> mrel (print_dirs cf w1 (map (T s1) l)) (print_dirs cf w2 (map (T s2) l)).
+Lemma print_dirs_T l : Forall okP l -> forall v, mrel (print_dirs cf w1 (map (T s1) l) v) (print_dirs cf w2 (map (T s2) l) v).
 Proof.
-  induction 1 as [|d r Hd _ IH]; cbn [map print_dirs]; [apply mrel_ret|].
+  induction 1 as [|d r Hd _ IH]; intros v; cbn [map print_dirs]; [apply mrel_ret|].
   destruct d; try (Tother s1 s2; apply mrel_fail).
   rewrite !T_NDirective. cbn [InterpRelProofs.okP] in Hd. apply okP_all in Hd. pose proof (eval_list_T _ Hd).
   rewrite !map_length.
@@ -268,7 +268,7 @@ Proof.
   - (* NRawText *) mr.
   - (* NPrint *) destruct H as [Ha Hd]. apply okP_all in Hd. pose proof (Hw _ Ha). pose proof (print_dirs_T _ Hd).
     apply mrel_bind; [assumption|]. intros v. destruct v; try apply mrel_fail.
-    all: apply mrel_bind; [assumption|]; intros ds; apply mrel_bind; [apply mrel_lift|]; intros str;
+    all: apply mrel_bind; [solve [auto]|]; intros ds; apply mrel_bind; [apply mrel_lift|]; intros str;
       apply mrel_get_bind; intros t1 t2 He; rewrite (eqv_mode _ _ He); mr.
   - (* NCss *) destruct expr as [x|]; cbn [TO option_map]; [pose proof (eval_T _ H)|]; mr.
   - (* NLog *) pose proof (render_block_T _ H). mr.
